@@ -161,6 +161,45 @@ def covered(pid, targets, f, *a):
     return _COV.run(f, *a)
 
 
+# ---------------------------------------------------------------- hang detection (shared by C07 and C12)
+# A request of these harnesses takes milliseconds.  The alarm raises a BaseException, so that neither the framework's
+# catch-all (`except Exception`) nor MultipartMarkup.parse (`except Exception: self.error = exc`) can swallow it and
+# turn a hang into an ordinary 400/500.  After HANG_K hangs in one run the limit drops to HANG_FAST, so a tree that
+# hangs on a whole family of inputs costs seconds, not minutes (shrinking included).
+HANG_LIMIT = 2.0
+HANG_FAST = 0.25
+HANG_K = 3
+_HANGS = {'n': 0}
+
+
+class Hang(BaseException):
+    pass
+
+
+def _on_alarm(signum, frame):
+    raise Hang()
+
+
+def call_guarded(f):
+    """run f() under the per-request alarm; returns (True, result) or (False, None) when it did not terminate"""
+    import signal
+    limit = HANG_FAST if _HANGS['n'] >= HANG_K else HANG_LIMIT
+    old = signal.signal(signal.SIGALRM, _on_alarm)
+    signal.setitimer(signal.ITIMER_REAL, limit)
+    try:
+        return True, f()
+    except Hang:
+        _HANGS['n'] += 1
+        return False, None
+    finally:
+        signal.setitimer(signal.ITIMER_REAL, 0)
+        signal.signal(signal.SIGALRM, old)
+
+
+def hang_limit():
+    return HANG_FAST if _HANGS['n'] > HANG_K else HANG_LIMIT
+
+
 # ---------------------------------------------------------------- the browser-side encoder
 def header_block(f):
     h = b'Content-Disposition: form-data; name="' + u8(f['name']) + b'"'
@@ -574,8 +613,9 @@ def _run_impl(case):
         env = environ('POST', '/', **{'wsgi.input': FragStream(body, sched), 'CONTENT_TYPE': ctype,
                                       'CONTENT_LENGTH': str(len(body))})
     status = []
-    out = app(env, lambda s, h, e=None: status.append(s))
-    b''.join(out)
+    done, _ = call_guarded(lambda: b''.join(app(env, lambda s, h, e=None: status.append(s))))
+    if not done:
+        return {'hang': True}
     code = int(status[0].split()[0])
     if code != 200:
         tb = env['wsgi.errors'].getvalue().strip().split('\n')
@@ -683,6 +723,8 @@ def got(entries):
 def oracle(case, obs):
     if not valid(case):
         return None          # outside the guard of the property (only reachable through shrinking / replays)
+    if obs.get('hang'):
+        return 'request did not terminate within %.2g s' % hang_limit()
     fields = case['fields']
     over = budget(fields) > case['mem']
     st = obs.get('status')
